@@ -353,9 +353,25 @@ def run(F, R):
         rets = lib.alts(pe.trace_local(0))
         ident = [x for x in rets if x == ("param", 1)]
         R.check("C01-R7", "identity-otherwise", len(ident) == 1 and len(rets) == 3, "otherwise the ETag is used unchanged", "parse_etag returns %s" % [fmt_t(x)[:40] for x in rets])
-    for bv in (vr, vs, mth, pe, nd):
-        if bv is None:
-            continue
+    # .. the bodies themselves, the closures written inside them and the private helpers they call (an extracted
+    # `split_etag_header()` / `check_request_hash()` is part of the verification path)
+    path_bodies = [bv for bv in (vr, vs, mth, pe, nd) if bv is not None]
+    seen_ids = set(bv.id for bv in path_bodies)
+    grew = True
+    while grew:
+        grew = False
+        for b_ in c.bodies:
+            if b_["id"] in seen_ids or "::tests" in b_["id"]:
+                continue
+            if b_.get("parent") in seen_ids:
+                path_bodies.append(W.bv(b_["id"])); seen_ids.add(b_["id"]); grew = True
+        for bv in list(path_bodies):
+            for _, t_ in bv.calls():
+                cid_ = t_.get("resolved_id") or t_.get("callee_id")
+                cb_ = W.by_id.get(cid_) if cid_ else None
+                if cb_ is not None and cid_ not in seen_ids and cid_.startswith("omaha_client::cup_ecdsa::") and "::tests" not in cid_ and cb_.get("kind") in ("fn", "closure"):
+                    path_bodies.append(W.bv(cid_)); seen_ids.add(cid_); grew = True
+    for bv in path_bodies:
         for s_ in census.panic_sites(bv):
             R.violation("C01-R6", "panic-site:" + s_["key"], "panic-capable site %s on the verification path (%s)" % (s_["desc"], bv.name), s_["loc"])
     R.holds("C01-R6", "panic-census", "no panic-capable site in verify_response, the verifier, make_transaction_hash, parse_etag, Display for Nonce")
